@@ -538,7 +538,7 @@ def kernel_extension(rng, n):
     reset of a start outside (3e-308, 1 - 2.22e-16) (cpp:512), Newton trial points below 0 or equal
     to 1 (cpp:538, 542); incomplete beta with shapes up to 1e6 - the continued fractions run into
     their cap of 300 rounds (cpp:771, 884) and rescale upwards (cpp:875)"""
-    ops = []
+    ops, refl = [], []
     for _ in range(n):
         k = rng.randrange(5)
         if k == 0:
@@ -549,7 +549,7 @@ def kernel_extension(rng, n):
                 qa, qb = qb, qa
         if k <= 1:
             ops.append("k.qbeta %s %s %s" % (hx(p), hx(qa), hx(qb)))
-            ops.append("refl.qbeta %s %s %s" % (hx(p), hx(qa), hx(qb)))
+            refl.append("refl.qbeta %s %s %s" % (hx(p), hx(qa), hx(qb)))
             continue
         al, be = log_uniform(rng, 1e3, 1e6), log_uniform(rng, 1e3, 1e6)
         if k == 2:      # near the mean: incompletebetafe, cap of 300 rounds
@@ -564,12 +564,14 @@ def kernel_extension(rng, n):
             x = beta_x(rng, al, be)
         x = min(max(x, 1e-9), 1 - 1e-9)
         ops.append("k.ibeta %s %s %s" % (hx(x), hx(al), hx(be)))
-        ops.append("refl.ibeta %s %s %s" % (hx(x), hx(al), hx(be)))
-    return chunks("kext", ops, 200)
+        refl.append("refl.ibeta %s %s %s" % (hx(x), hx(al), hx(be)))
+    return chunks("kext", ops, 200) + chunks("reflext", refl, 100)
 
 
 def kernel_random(rng, n):
-    ops = []
+    # the reflections go into cases of their own: a case is judged up to its first issue, and a broken
+    # tie on a `k.*` op must not hide a false theorem-backed predicate on a `refl.*` op
+    ops, refl = [], []
     for _ in range(n):
         x, a = ig_point(rng)
         ops.append("k.ig %s %s %s" % (hx(x), hx(a), hx(lg(a))))
@@ -577,12 +579,12 @@ def kernel_random(rng, n):
         ops.append("k.qchisq %s %s" % (hx(p), hx(v)))
         x, al, be = ibeta_point(rng)
         ops.append("k.ibeta %s %s %s" % (hx(x), hx(al), hx(be)))
-        ops.append("refl.ibeta %s %s %s" % (hx(x), hx(al), hx(be)))
+        refl.append("refl.ibeta %s %s %s" % (hx(x), hx(al), hx(be)))
         if rng.random() < 0.34:
             p, qa, qb = qbeta_point(rng)
             ops.append("k.qbeta %s %s %s" % (hx(p), hx(qa), hx(qb)))
-            ops.append("refl.qbeta %s %s %s" % (hx(p), hx(qa), hx(qb)))
-    return chunks("krnd", ops, 200)
+            refl.append("refl.qbeta %s %s %s" % (hx(p), hx(qa), hx(qb)))
+    return chunks("krnd", ops, 200) + chunks("refl", refl, 100)
 
 
 def generate(seed, tier):
@@ -592,10 +594,11 @@ def generate(seed, tier):
     cases += guard_grid(rng, tier)
     cases += guard_random(rng, 100000 if big else 10000)
     cases += norm_tie(rng, 200000 if big else 20000)
-    cases += explore(rng, 40000 if big else 3000)
+    # theorem-backed streams first (the check reports the first few distinct failing clauses)
     cases += kernel_grid()
     cases += kernel_random(rng, 60000 if big else 6000)
     cases += kernel_extension(rng, 15000 if big else 1500)
+    cases += explore(rng, 40000 if big else 3000)
     return cases
 
 
